@@ -310,6 +310,7 @@ pub fn replay(r: &Value) -> bool {
         let msg_s = r["msg"].as_str().unwrap_or("");
         if msg_s.starts_with("shape:") {
             println!("message too large to be stored: re-run the leg with the recorded seed");
+            crate::util::not_replayable();
             return false;
         }
         let msg = unhex(msg_s);
@@ -327,10 +328,7 @@ pub fn replay(r: &Value) -> bool {
         let mut rep = Report::new();
         check_sign::<V>(&k, &h, &msg, r["shape"].as_str().unwrap_or("?"), &strat, r["compress_failures"].as_u64().unwrap_or(0) as u32, r["vseed"].as_u64().unwrap_or(1), r["label"].as_str().unwrap_or("replay"), &mut rep);
         println!("counters {:?}", rep.counters);
-        for v in &rep.violations {
-            println!("{}: {}", v.signature, v.detail);
-        }
-        rep.violations.is_empty()
+        crate::util::print_replay(&rep)
     }
     match r["variant"].as_str().unwrap_or("") {
         "falcon512" => go::<F512>(r),
